@@ -160,8 +160,8 @@ _AA_REDIR = {
     "github.com/gmrtd/gmrtd/cryptoutils.RsaDecryptWithPublicKey": "verifStubRsaDecrypt",
 }
 PROPS["C07"] = {
-    "patterns": ["./activeauth"],
-    "harness": {"activeauth": ["activeauth/c07.go"]},
+    "patterns": ["./activeauth", "./cryptoutils"],
+    "harness": {"activeauth": ["activeauth/c07.go"], "cryptoutils": ["cryptoutils/c07.go"]},
     "level_text": "Claimed in part (what does not need the signature primitives). On the real SSA: (1) decodeF for every recovered message of 0..40 bytes (thorough 0..136): accepted exactly when 6A ‖ M1 ‖ digest ‖ trailer with trailer BC or 38/34/36/35 CC and enough bytes for the digest of the hash the trailer names; M1, digest and hash algorithm are exactly those slices. (2) the RSA branch of ValidateActiveAuthSignature after the modular exponentiation, with the recovered message arbitrary (incl. leading zero octets): success exactly when trim0(f) = 6A ‖ M1 ‖ H(M1 ‖ challenge) ‖ trailer with the matching hash, and the evidence records challenge and response - so a wrong trailer/hash pairing, an off-by-one digest slice or dropping the challenge from the hash input is a counterexample. (3) parseEcdsaSignaturePlain for signatures of the listed lengths: accepted exactly when even length and r, s non-zero, and r, s are the two halves. (4) WithChallenge/randomIfd/DoActiveAuth/InternalAuthenticate over a stub transceiver: for every 8-byte challenge the command data on the wire and the evidence nonce equal it (no aliasing of the caller's slice); other lengths are refused.",
     "level_note": "Not applicable to this technique and outside the claim: that a response is accepted only if it is a valid signature under the DG15 key and that every genuine response is accepted in the cryptographic sense (modular exponentiation, ecdsa.Verify, encoding/asn1 DER decoding of keys and DER signatures cannot be encoded; they are replaced by harness stubs: Asn1decodeSubjectPublicKeyInfo, RsaPubKey, RsaDecryptWithPublicKey). Harnesses that use these stubs cannot be replayed natively (no_replay); a counterexample from them is reported as the engine found it. The offline nonce check of verifier.Verify is in C14. Hashes are uninterpreted functions.",
     "bounds": "recovered message up to 40 bytes (136 thorough), 0 or 2 leading zero octets; signatures of 0..64 bytes (listed lengths); challenges of 0,7,8,9,16 bytes",
@@ -171,6 +171,11 @@ PROPS["C07"] = {
         {"func": "verifH_C07_decodeF", "pkg": "activeauth", "params": {"N": list(range(0, 41))}, "params_thorough": {"N": list(range(0, 137))}, "unwind": 200, "expect_reach": ["decoded", "rejected"]},
         {"func": "verifH_C07_rsa", "pkg": "activeauth", "params": {"N": [3, 4, 22, 23, 30, 31, 32, 38, 40], "Z": [0, 2]}, "params_thorough": {"N": list(range(0, 72)), "Z": [0, 1, 3]}, "unwind": 200, "redirect": _AA_REDIR, "no_replay": True, "expect_reach": ["validated", "accepted"]},
         {"func": "verifH_C07_plain", "pkg": "activeauth", "params": {"N": [0, 1, 2, 3, 4, 6, 16, 64]}, "params_thorough": {"N": list(range(0, 20)) + [48, 56, 64, 96, 128, 132]}, "unwind": 200, "expect_reach": ["parsed", "rejected"]},
+        {"func": "verifH_C07_ecdsa", "pkg": "activeauth", "params": {"N": [0, 1, 2, 4, 5, 6], "bits": [224, 256, 384, 521]}, "params_thorough": {"N": list(range(0, 11)), "bits": [192, 224, 256, 320, 384, 512, 521]}, "unwind": 200, "no_replay": True, "expect_reach": ["validated", "accepted"],
+         "redirect": {"github.com/gmrtd/gmrtd/cms.Asn1decodeSubjectPublicKeyInfo": "verifStubSpkiEc", "(*github.com/gmrtd/gmrtd/cms.SubjectPublicKeyInfo).EcCurveAndPubKey": "verifStubEcCurveAndPubKey",
+                      "crypto/ecdsa.Verify": "verifStubEcdsaVerify", "encoding/asn1.Unmarshal": "verifStubAsn1Unmarshal"}},
+        {"func": "verifH_C07_rsawidth", "pkg": "cryptoutils", "params": {"bits": [16, 17, 20, 23, 24, 25]}, "params_thorough": {"bits": list(range(16, 41))}, "unwind": 200, "no_replay": True, "expect_reach": ["decrypted"],
+         "redirect": {"(*math/big.Int).Exp": "verifStubExp"}},
         {"func": "verifH_C07_challenge", "pkg": "activeauth", "params": {"N": [0, 7, 8, 9, 16]}, "unwind": 200, "redirect": {"github.com/gmrtd/gmrtd/cms.Asn1decodeSubjectPublicKeyInfo": "verifStubSpki", "(*github.com/gmrtd/gmrtd/cms.SubjectPublicKeyInfo).RsaPubKey": "verifStubRsaPubKeyFails"}, "no_replay": True, "expect_reach": ["sent"]},
     ],
 }
@@ -189,7 +194,7 @@ PROPS["C15"] = {
     "assumptions": ["CBOR codec round-trips Go values", "SHA-256 as an uninterpreted function"],
     "jobs": [
         {"func": "verifH_C15_export", "pkg": "document", "params": {"group": [0, 1, 2, 3], "others": [0, 1]}, "unwind": 64, "no_replay": True, "expect_reach": ["exported"]},
-        {"func": "verifH_C15_import", "pkg": "document", "params": {"group": [0, 1, 2, 3], "others": [1]}, "params_thorough": {"others": [0, 1]}, "unwind": 64, "no_replay": True, "redirect": _C15_REDIR, "expect_reach": ["imported", "rejected"]},
+        {"func": "verifH_C15_import", "pkg": "document", "params": {"group": [0, 1, 2, 3], "others": [1], "prior": [0, 1]}, "params_thorough": {"others": [0, 1]}, "unwind": 64, "no_replay": True, "redirect": _C15_REDIR, "expect_reach": ["imported", "rejected"]},
         {"func": "verifH_C15_evidence", "pkg": "document", "unwind": 64, "no_replay": True, "expect_reach": ["imported", "rejected"]},
     ],
 }
@@ -205,8 +210,9 @@ PROPS["C19"] = {
     "jobs": [
         {"func": "verifH_C19_dg11", "pkg": "document", "unwind": 64, "expect_reach": ["dg11"]},
         {"func": "verifH_C19_dg7", "pkg": "document", "params": {"K": [1, 2, 3]}, "unwind": 64, "expect_reach": ["dg7"]},
-        {"func": "verifH_C19_dg2", "pkg": "document", "params": {"K": [1, 2, 3]}, "unwind": 64, "no_replay": True, "redirect": {"github.com/gmrtd/gmrtd/document/iso19794.ProcessISO19794": "verifStubISO19794"}, "expect_reach": ["dg2"]},
+        {"func": "verifH_C19_dg2", "pkg": "document", "params": {"K": [1, 2, 3], "fmt": [0, 1, 2, 3, 5, 7]}, "unwind": 64, "no_replay": True, "redirect": {"github.com/gmrtd/gmrtd/document/iso19794.ProcessISO19794": "verifStubISO19794", "github.com/gmrtd/gmrtd/document/iso39794.ProcessISO39794p5": "verifStubISO39794"}, "expect_reach": ["dg2"]},
         {"func": "verifH_C19_com", "pkg": "document", "unwind": 64, "expect_reach": ["com"]},
+        {"func": "verifH_C19_summary", "pkg": "document", "params": {"K": [1, 2]}, "unwind": 64, "expect_reach": ["summary"]},
         {"func": "verifH_C19_unwrap", "pkg": "document", "params": {"N": [0, 1, 5]}, "unwind": 64, "expect_reach": ["unwrapped"]},
         {"func": "verifH_C19_wrongtag", "pkg": "document", "params": {"ctor": [1, 7, 11, 12, 13, 15, 16, 20]}, "unwind": 64, "expect_reach": ["called"]},
     ],
@@ -259,6 +265,11 @@ PROPS["C14"] = {
          "redirect": {_CA + "selectChipAuthParams": "verifStubSelectParams", _CA + "deriveSessionKeys": "verifStubDeriveKeys",
                       "(*github.com/gmrtd/gmrtd/cms.SubjectPublicKeyInfo).EcCurveAndPubKey": "verifStubEcCurveAndPubKey",
                       "github.com/gmrtd/gmrtd/cryptoutils.DecodeX962EcPoint": "verifStubDecodePoint"}, "expect_reach": ["returned"]},
+        {"func": "verifH_C14_ca_counter", "pkg": "chipauth", "params": {"nssc": [0, 1, 8, 16], "aes": [0, 1]}, "unwind": 64, "no_replay": True,
+         "redirect": {_CA + "selectChipAuthParams": "verifStubSelectParams", _CA + "deriveSessionKeys": "verifStubDeriveKeys",
+                      "(*github.com/gmrtd/gmrtd/cms.SubjectPublicKeyInfo).EcCurveAndPubKey": "verifStubEcCurveAndPubKey",
+                      "github.com/gmrtd/gmrtd/cryptoutils.DecodeX962EcPoint": "verifStubDecodePoint",
+                      "(*github.com/gmrtd/gmrtd/iso7816.SecureMessaging).Decode": "verifStubSmDecode"}, "expect_reach": ["returned", "success"]},
     ],
 }
 
@@ -273,7 +284,8 @@ PROPS["C01"] = {
     "jobs": [
         {"func": "verifH_C01_passiveauth", "pkg": "passiveauth", "unwind": 300, "no_replay": True, "expect_reach": ["success", "failed"],
          "redirect": {"(github.com/gmrtd/gmrtd/document.SOD).CertCountryAlpha2": "verifStubSodCountry", "(github.com/gmrtd/gmrtd/document.DG1).IssuingCountryAlpha2": "verifStubDg1Country",
-                      "(*github.com/gmrtd/gmrtd/cms.SignedData).Verify": "verifStubSDVerify"}},
+                      "(*github.com/gmrtd/gmrtd/cms.SignedData).Verify": "verifStubSDVerify", "(*github.com/gmrtd/gmrtd/cms.SignedData).VerifyWithConfig": "verifStubSDVerifyCfg",
+                      "github.com/gmrtd/gmrtd/cms.NewDefaultCMSConfig": "verifStubNewCfg"}},
     ],
 }
 
@@ -315,3 +327,37 @@ PROPS["C06"] = {
          "unwind": 300, "canon_all": True, "no_replay": True, "redirect": {"github.com/gmrtd/gmrtd/cryptoutils.DoEcDh": "verifStubDoEcDh"}, "expect_reach": ["derived"]},
     ],
 }
+
+_CU = "github.com/gmrtd/gmrtd/cryptoutils."
+_C04_REDIR = {"github.com/gmrtd/gmrtd/pace.standardisedDomainParams": "verifStubDomainParams",
+              "(" + _CU + "EcPoint).String": "verifStubPointString", "(" + _CU + "EcKeypair).String": "verifStubKeypairString"}
+PROPS["C04"] = {
+    "patterns": ["./pace"],
+    "harness": {"pace": ["pace/c04ref.go", "pace/c04.go"]},
+    "level_text": "Claimed in part: the protocol logic of PACE generic mapping / chip-authentication mapping, with the elliptic curve replaced by an abstract group. The real SSA of Pace.DoPACE, selectPaceConfig, paceConfigGetByOID, keyForPassword, doApduMseSetAT, getNonce, decryptNonce, doGenericMappingGmCam, mapNonceGmEcDh, doGenericMappingEC, keyAgreementGmEcDh, mutualAuthGmEcDh, computeAuthTokens, computeAuthToken, encodePubicKeyTemplate7F49, encode/decodeDynAuthData, doCamEcdh, decryptEcadIC, icPubKeyECForCAM, cryptoutils.KDF/DesKeyAdjustParity/CryptCBC/ISO9797RetailMacDes/ISO9797Method2Pad/Unpad/EncodeX962EcPoint/DecodeX962EcPoint/DoEcDh/EcDhSharedSecret/EcPoint.Equal, crypto/elliptic.Marshal/Unmarshal, Password.Key/Type, NfcSession.MseSetAT/GeneralAuthenticate/DoAPDU, NewSecureMessaging is executed against a reference chip written from ICAO 9303-11 §4.4 (plain byte code behind a Transceiver). The curve handed to the code is an abstract Z-module: points are 2n-octet strings, scalar multiplication and addition are uninterpreted functions kept in the normal form that expresses a(bP) = b(aP) and P+Q = Q+P, membership an uninterpreted predicate; generator, nonce, all four ephemeral scalars, the chip's static key and CA data, the password (24-byte MRZ information or 6-digit CAN) are symbolic. z3 shows: (1) conforming chip, same password: MSE:Set AT names protocol, password type and parameter id; four GENERAL AUTHENTICATE commands with the right data objects, chained except the last; the chip accepts the terminal's token; PACE succeeds; both sides hold KDF(fixed-width x-coordinate of the agreed point, 1/2) with the counter at zero; for CAM the mapping is reported successful and the evidence records every captured value - for 3DES, AES-128 (thorough: all seven suites) and for MRZ and CAN passwords. (2) Error status at any of the five steps, or a response lacking its data object: PACE fails, no secure messaging, no CAM result. (3) Every chip value arbitrary (nonce cryptogram, mapping key, agreement key, token = expected XOR arbitrary delta): success implies delta = 0 for the token over the terminal's own agreement key under keys from the terminal's own agreement, both chip keys are group members and differ from the terminal's, installed keys/counter as derived; failure leaves no secure messaging. (4) Conforming chip whose encrypted CA data is arbitrary: CAM is reported successful exactly when the plaintext is correctly padded and KA(CA_IC, PK_IC) = PK_Map,IC. (5) selectPaceConfig on up to 2 PACEInfos over all 19 table entries, an unknown OID and parameter ids absent / 2 / 8 / 18 / 19: never panics, picks the known entry of maximal preference, errors only if none or its parameter id is missing/unsupported; whenever a supported suite is advertised (and ECDH entries carry EC parameter ids) a supported one is chosen.",
+    "level_note": "Not applicable to this technique: the arithmetic of the eleven standardised curves (crypto/elliptic, brainpool, math/big) - the check shows that gmrtd's use of the group operations, ciphers, MACs and hashes equals ICAO's for every group with the module laws, not that P-256 is one. 'A different password makes PACE fail' and 'an altered value makes the token mismatch' hold only up to collisions of the idealised primitives; what is decided is the acceptance condition (3). standardisedDomainParams is replaced by a stub that hands out the abstract group for ids 8..18 (its table is a plain switch). Harness with injected stubs: not replayed natively; the leading-zero shared-secret defect it depends on (fixed in fb87c02) was reproduced natively (see C06). The normal form orders scalars by term identity; two different writings of one scalar could lose the law and raise an alarm (never hide a violation) - value ordering was tried and is beyond z3 (unknown at 60 s).",
+    "bounds": "field size 32 octets quick (24, 28, 32, 40, 48, 64, 66 thorough; 66 with a 521-bit size); 16-byte nonce; suites 3DES, AES-128, CAM-AES-128 quick (all 7 thorough); encrypted CA data of 16 bytes quick (16..80 thorough); group elements with an all-zero coordinate excluded; up to 2 PACEInfos",
+    "outside": "curve arithmetic; PACE-IM and DH (not implemented by gmrtd); more than one fault per run; extended-length APDUs",
+    "assumptions": ["block ciphers are permutations per key", "CMAC and hashes as uninterpreted functions", "scalar multiplication/addition form a Z-module (uninterpreted otherwise)", "in a conforming run the two public keys of a step differ (9303-11 4.4.1 d)"],
+    "jobs": [
+        {"func": "verifH_C04_select", "pkg": "pace", "params": {"infos": [0, 1, 2]}, "unwind": 64, "redirect": _C04_REDIR, "expect_reach": ["selected"]},
+        {"func": "verifH_C04_pace", "pkg": "pace", "params": {"fieldbytes": [32], "suite": [0, 1, 4], "can": [0, 1], "arbitrary": 0, "fail": -1, "drop": -1, "ecadlen": 48},
+         "params_thorough": {"fieldbytes": [24, 28, 32, 40, 48, 64, 66], "suite": [0, 1, 2, 3, 4, 5, 6]},
+         "unwind": 400, "no_replay": True, "canon_all": True, "redirect": _C04_REDIR, "timeout_ms": 60000, "expect_reach": ["ran", "genuine-success"]},
+        {"func": "verifH_C04_pace", "pkg": "pace", "params": {"fieldbytes": [8], "suite": [0, 4], "can": 0, "arbitrary": 0, "fail": [0, 1, 2, 3, 4], "drop": -1, "ecadlen": 48},
+         "params_thorough": {"fieldbytes": [32], "suite": [0, 1, 4]},
+         "unwind": 400, "no_replay": True, "canon_all": True, "redirect": _C04_REDIR, "timeout_ms": 60000, "expect_reach": ["ran", "chip-error"]},
+        {"func": "verifH_C04_pace", "pkg": "pace", "params": {"fieldbytes": [8], "suite": [0, 4], "can": 0, "arbitrary": 0, "fail": -1, "drop": [1, 2, 3, 4], "ecadlen": 48},
+         "params_thorough": {"fieldbytes": [32], "suite": [0, 1, 4]},
+         "unwind": 400, "no_replay": True, "canon_all": True, "redirect": _C04_REDIR, "timeout_ms": 60000, "expect_reach": ["ran", "chip-error"]},
+        {"func": "verifH_C04_pace", "pkg": "pace", "params": {"fieldbytes": [32], "suite": [0, 1], "can": 0, "arbitrary": 1, "fail": -1, "drop": -1, "ecadlen": 16},
+         "params_thorough": {"fieldbytes": [24, 32, 66], "suite": [0, 1, 2, 3, 4]},
+         "unwind": 400, "no_replay": True, "canon_all": True, "redirect": _C04_REDIR, "timeout_ms": 60000, "expect_reach": ["ran", "arbitrary-success", "arbitrary-failure"]},
+        {"func": "verifH_C04_pace", "pkg": "pace", "params": {"fieldbytes": [32], "suite": [4], "can": 0, "arbitrary": 2, "fail": -1, "drop": -1, "ecadlen": [16]},
+         "params_thorough": {"fieldbytes": [24, 32, 66], "suite": [4, 5, 6], "ecadlen": [16, 32, 48, 80]},
+         "unwind": 400, "no_replay": True, "canon_all": True, "redirect": _C04_REDIR, "timeout_ms": 60000, "expect_reach": ["ran", "ecad-only", "cam-success", "cam-failure"]},
+    ],
+}
+
+PROPS["DBG2"] = {"claimed": False, "patterns": ["./pace"], "harness": {"pace": ["pace/c04ref.go", "pace/c04.go", "pace/dbg.go"]}, "level_text": "", "level_note": "",
+    "jobs": [{"func": "verifH_dbg_group", "pkg": "pace", "unwind": 300}]}
